@@ -124,6 +124,10 @@ func runC03(ctx *core.Ctx, idx int) *core.Result {
 		verbatimLiteralCase(ctx, idx, res, g)
 		return res
 	}
+	if idx%25 == 21 {
+		siteCensus(ctx, idx, res, g)
+		return res
+	}
 	switch idx % 5 {
 	case 0, 1:
 		// instantiate with multiplicities / precedence
@@ -603,6 +607,64 @@ func verbatimLiteralCase(ctx *core.Ctx, idx int, res *core.Result, g *gen.G) {
 				res.Violate("C03/wrong-rewrite", fmt.Sprintf("site %d: replLit(%s, ...) is not in the output", i, a), rep)
 				return
 			}
+		}
+	}
+}
+
+// siteCensus is the operand census seen from the other side: the '+' side has no metavariable at all and is itself every
+// kind of code; the name it replaces stands in every operand position of the file. What the file holds afterwards is the
+// position applied to the replacement as a unit, whether or not anything was captured.
+func siteCensus(ctx *core.Ctx, idx int, res *core.Result, g *gen.G) {
+	fl := exprKindFillers[(idx/25)%len(exprKindFillers)]
+	if strings.HasPrefix(fl.text, "func") {
+		// a '+' side that begins with 'func' is read as a declaration (a limit of the patch language): as an argument
+		fl.text = "(" + fl.text + ")"
+	}
+	patch := "@@\n@@\n-tgtSite\n+" + fl.text + "\n"
+	isType := gen.Parses("package p\n\nvar _ " + fl.text + "\n")
+	var srcs, wants, poss []string
+	for _, pos := range operandPositions {
+		if strings.Count(pos, "«x»") != 1 {
+			continue
+		}
+		typePos := false
+		for _, tp := range []string{"[]«x»", "chan «x»", "chan<- «x»", "map[«x»]", "map[int]«x»", "[«x»]int", "func(«x»)", "func(int) «x»", "*«x»(nil)", "a.(«x»)", "g[«x»]", "g[int, «x»]", "«x»{"} {
+			typePos = typePos || strings.Contains(pos, tp)
+		}
+		if typePos && (!isType || strings.HasPrefix(pos, "«x»{")) {
+			continue
+		}
+		in := "package p\n\nfunc f() {\n\tuse(" + strings.ReplaceAll(pos, "«x»", "tgtSite") + ")\n}\n"
+		want := "package p\n\nfunc f() {\n\tuse(" + strings.ReplaceAll(pos, "«x»", "("+fl.text+")") + ")\n}\n"
+		if !gen.Parses(in) || !gen.Parses(want) {
+			res.Ob("site-census:expectation-is-no-go", 1)
+			continue
+		}
+		srcs, wants, poss = append(srcs, in), append(wants, want), append(poss, pos)
+	}
+	runs := applyAPI(patch, srcs)
+	for i, run := range runs {
+		res.Evals++
+		res.Ob("site-census:cells", 1)
+		res.Sig("site-census", fl.text, poss[i])
+		rep := replayFiles(patch, srcs[i], run.Out)
+		rep["expected.go"] = wants[i]
+		if run.Pan != "" {
+			res.Violate("C03/engine-panic:"+core.PanicSignature(run.Pan), run.Pan, rep)
+			return
+		}
+		if run.Err != "" {
+			res.Violate("C03/engine-error/site-census", fmt.Sprintf("replacement %q (%s) at position %q: %s", fl.text, fl.kind, poss[i], run.Err), rep)
+			continue
+		}
+		got, _, _, e1 := ref.ParseFile([]byte(run.Out), true)
+		exp, _, _, e2 := ref.ParseFile([]byte(wants[i]), true)
+		if e1 != nil || e2 != nil {
+			res.Violate("C03/unparseable-output", fmt.Sprint(e1, e2), rep)
+			continue
+		}
+		if !ref.Equal(got.Tree, exp.Tree) {
+			res.Violate("C03/wrong-rewrite/site-census", fmt.Sprintf("replacement %q (%s) at position %q: %s", fl.text, fl.kind, poss[i], ref.FirstDiff(got.Tree, exp.Tree, "")), rep)
 		}
 	}
 }
